@@ -152,6 +152,10 @@ func cmdCheck(args []string) int {
 		fmt.Fprintln(os.Stderr, "contracts:", err)
 		return 2
 	}
+	if err := sp.resolveImplements(); err != nil {
+		fmt.Fprintln(os.Stderr, "contracts:", err)
+		return 2
+	}
 	ld, err := loadRepo(*repo, ps.Packages)
 	rctx = &replayCtx{ld: ld, sp: sp}
 	loadS := time.Since(start).Seconds()
